@@ -57,7 +57,7 @@ type instrStats struct {
 	Warnings []string // operations that cannot be given a replay point (only matter if a thread executes them)
 }
 
-func instrumentPackage(p *packages.Package, outDir string, repl map[string]string, st *instrStats) error {
+func instrumentPackage(p *packages.Package, outDir string, repl map[string]string, st *instrStats, atomicFns map[string]bool) error {
 	for i, f := range p.Syntax {
 		if i >= len(p.CompiledGoFiles) {
 			break
@@ -96,6 +96,11 @@ func instrumentPackage(p *packages.Package, outDir string, repl map[string]strin
 				return false
 			}
 			switch nd := c.Node().(type) {
+			case *ast.FuncDecl:
+				// functions the executor runs as one indivisible step get no replay points
+				if fo, ok := info.Defs[nd.Name].(*types.Func); ok && atomicFns[fo.FullName()] {
+					return false
+				}
 			case *ast.RangeStmt:
 				if isChan(nd.X) {
 					bad = append(bad, p.Fset.Position(nd.Pos()).String()+": range over a channel")
